@@ -93,7 +93,15 @@ theorem routes_wrapped :
       routes.any (fun r => r.2.1 == h) && routes.all (fun r => r.2.1 != h || r.2.2)) = true := by
   decide +kernel
 
+/-- **wrappers_pass_request_unchanged** (over the facts regenerated from cmd/shovel/main.go): the
+    handlers wrapped around the whole route table (today: the access log) hand the request they received
+    on to the routes — no statement of theirs writes its remote address, a header or a cookie, or
+    substitutes another request. So the address `Authn` classifies is the connection's, not one a
+    client claimed in a header. -/
+theorem wrappers_pass_request_unchanged : wrapperRequestWrites = [] := by decide +kernel
+
 /-! non-vacuity -/
+example : wrappers ≠ [] := by decide
 example : authn ⟨false, true, ⟩ 7 true .none = .redirectLogin := by decide
 example : authn ⟨false, false⟩ 7 true .garbage = .served := by decide
 example : authn ⟨false, true⟩ 7 false (.minted 8) = .redirectLogin := by decide
